@@ -7,7 +7,7 @@ from typing import Dict, List, Optional, Set
 from ..callgraph import CallGraph, ext_name
 from ..cfg import cfg_of
 from ..dag import T
-from ..model import FunctionInfo, ClassInfo
+from ..model import FunctionInfo, ClassInfo, dotted
 from ..report import Ctx, PASS, VIOLATION, UNKNOWN
 from ..util import name_free, norm, parents, fn_body_nodes, walk_local, kwarg
 
@@ -189,6 +189,46 @@ def _recheck_no_max_states_callers(ctx: Ctx, G: CallGraph) -> Optional[str]:
     return None
 
 
+def _self_tables(fi: FunctionInfo, depth: int = 2, seen=None):
+    """(written, read): attribute chains `self.a.b` that the method stores into by subscript / reads by subscript, following
+    `self.m(...)` calls of the same class (MRO) up to `depth`."""
+    seen = seen if seen is not None else set()
+    if id(fi) in seen or fi.cls is None:
+        return set(), set()
+    seen.add(id(fi))
+    sn = fi.self_name
+    w, r = set(), set()
+    for n in ast.walk(fi.node):
+        if isinstance(n, ast.Subscript) and isinstance(n.value, ast.Attribute):
+            ch = dotted(n.value)
+            if ch and ch.split(".")[0] == sn:
+                (w if isinstance(n.ctx, ast.Store) else r).add(ch.split(".", 1)[1])
+        if depth > 0 and isinstance(n, ast.Call) and isinstance(n.func, ast.Attribute) and isinstance(n.func.value, ast.Name) and n.func.value.id == sn:
+            _, m = fi.cls.lookup(n.func.attr)
+            if isinstance(m, FunctionInfo):
+                w2, r2 = _self_tables(m, depth - 1, seen)
+                w |= w2
+                r |= r2
+    return w, r
+
+
+def _sweep_in_set_order(fi: FunctionInfo, loop: ast.AST, elem: str):
+    """a call `self.m(.., elem, ..)` in the loop whose callee updates, in place, a table that the update itself reads
+    (a Gauss-Seidel sweep): each update sees the entries written by the earlier ones, so the result depends on the order."""
+    if fi.cls is None:
+        return None
+    for c in ast.walk(loop):
+        if isinstance(c, ast.Call) and isinstance(c.func, ast.Attribute) and isinstance(c.func.value, ast.Name) and c.func.value.id == fi.self_name \
+                and any(isinstance(a, ast.Name) and a.id == elem for a in c.args):
+            _, m = fi.cls.lookup(c.func.attr)
+            if isinstance(m, FunctionInfo):
+                w, r = _self_tables(m)
+                both = sorted(w & r)
+                if both:
+                    return f"self.{c.func.attr}({elem}) updates self.{both[0]}[...] in place from other entries of the same table: the sweep's result depends on the order of the elements"
+    return None
+
+
 def classify_use(ctx: Ctx, G: CallGraph, typer: SetTyper, fi: FunctionInfo, node: ast.AST, pm, depth: int = 0):
     """classify how the value of set-typed (or ordered-from-set) expression `node` is consumed.
     returns (verdict, reason) or None when the use is not a consumer (value simply passed on)."""
@@ -241,6 +281,14 @@ def classify_use(ctx: Ctx, G: CallGraph, typer: SetTyper, fi: FunctionInfo, node
                 ggp = pm.get(id(gp))
                 if isinstance(ggp, ast.Expr):
                     return PASS, "pop() result unused"
+                # (written after seed C13-b) the popped element drives an in-place sweep
+                if isinstance(ggp, ast.Assign) and len(ggp.targets) == 1 and isinstance(ggp.targets[0], ast.Name):
+                    lp_ = ggp
+                    while lp_ is not None and not isinstance(lp_, (ast.While, ast.For)):
+                        lp_ = pm.get(id(lp_))
+                    why = _sweep_in_set_order(fi, lp_, ggp.targets[0].id) if lp_ is not None else None
+                    if why:
+                        return VIOLATION, "pop() from a set: " + why
                 return UNKNOWN, "pop() returns an arbitrary element (worklist idiom?)"
             return UNKNOWN, f"method .{a}() on a set"
         return None
@@ -260,7 +308,12 @@ def classify_use(ctx: Ctx, G: CallGraph, typer: SetTyper, fi: FunctionInfo, node
             return UNKNOWN, "dict comprehension over a set: insertion order is hash order"
         return None
     if isinstance(par, (ast.For, ast.AsyncFor)) and par.iter is node:
-        return _loop_body_verdict(par.body)
+        v_, why_ = _loop_body_verdict(par.body)
+        if v_ != VIOLATION and isinstance(par.target, ast.Name):
+            sw = _sweep_in_set_order(fi, par, par.target.id)
+            if sw:
+                return VIOLATION, "iteration over a set: " + sw
+        return v_, why_
     if isinstance(par, ast.Starred):
         return UNKNOWN, "*<set> unpacking"
     if isinstance(par, ast.Subscript) and par.value is node:
